@@ -453,6 +453,24 @@ def run(ctx: Ctx):
             res = pool.map(run_scenario, jobs, chunksize=64)
             _collect(ctx, "seeded sample of length-3 histories over the menu", res, exhaustive=False)
 
+        # --- tall, sparse tables: whole 256-row storage blocks that were never written ------------
+        SV = ["sv", 0, True, False]
+        tall = [
+            ([{"shape": [2, 3]}], [["edit", 0, ["w", 300, 2, 5]], SV, ["edit", 0, ["w", 600, 0, 6]], SV]),
+            ([{"shape": [400, 2]}], [["edit", 0, ["w", 399, 1, 3]], ["edit", 0, ["w", 256, 0, 4]], SV, ["sv", 0, False, True]]),
+            ([{"shape": [3, 2], "prefill": [[0, 0, 1], [1, 1, 2], [2, 0, 3]]}], [["edit", 0, ["ar", 256, 0, None]], SV,
+                                                                              ["edit", 0, ["ar", 300, 1, None]], SV]),
+            ([{"shape": [600, 1]}], [["edit", 0, ["w", 0, 0, 7]], ["edit", 0, ["w", 599, 0, 8]], SV]),
+            ([{"shape": [513, 2]}], [["edit", 0, ["w", 512, 1, 9]], SV, ["edit", 0, ["dr", 1, 0]], SV]),
+            ([{"shape": [2, 2]}], [["edit", 0, ["w", 255, 0, 1]], ["edit", 0, ["w", 256, 1, 2]], SV,
+                                   ["edit", 0, ["w", 1023, 0, 3]], SV, ["edit", 0, ["dr", 200, 300]], SV]),
+            ([{"shape": [2, 2]}], [["at", 0, 0, 300, 2], ["edit", 1, ["w", 299, 1, 4]], SV, ["edit", 1, ["w", 700, 0, 5]], SV]),
+            ([{"shape": [1, 1]}], [["edit", 0, ["w", 768, 0, 2]], SV, ["edit", 0, ["w", 10, 0, 3]], SV]),
+        ]
+        res = pool.map(run_scenario, tall, chunksize=1)
+        _collect(ctx, "tall sparse tables: 256-row blocks never written, rows inserted above data, second table; save + reopen",
+                 res, exhaustive=True)
+
         # --- seeded long histories ---------------------------------------------------------------
         nlong = 16 if ctx.quick else 120
         jobs = []
